@@ -42,31 +42,19 @@ Qed.
 Definition mutex_inv (g : gstate) : Prop :=
   forall i q c, nth_error (thr g) i = Some (q, c) -> holds c = true -> mtx (sh g) = Some i.
 
-Definition win_thread (ts : list (req * pc)) : Prop :=
-  exists i q c, nth_error ts i = Some (q, c) /\ in_window c = true.
-
+(** the flag says "unlocked" only while the authorisation monitor of the spec is on *)
 Definition flag_inv (g : gstate) : Prop :=
-  split_race g = false -> locked (sh g) = false ->
-  auth_of (trace g) = true \/ win_thread (thr g).
+  locked (sh g) = false -> auth_of (trace g) = true.
 
-Lemma any_window_spec ts : any_window ts = true <-> win_thread ts.
-Proof.
-  unfold any_window, win_thread. rewrite existsb_exists. split.
-  - intros [[q c] [Hin Hw]]. apply In_nth_error in Hin as [i Hi]. exists i, q, c. auto.
-  - intros (i & q & c & Hi & Hw). exists (q, c). split; [eapply nth_error_In; eauto|exact Hw].
-Qed.
+(** the program counters of a ProcWalletSetPasswd thread *)
+Definition setpw_pc (c : pc) : bool :=
+  match c with
+  | PAcq | PRel _ | PDone _ | PS_flag | PS_seed | PS_verify | PS_hasseed | PS_write => true
+  | _ => false
+  end.
 
-(** a thread that holds the mutex excludes every window of another thread *)
-Lemma holder_no_other_window g i q c :
-  mutex_inv g -> nth_error (thr g) i = Some (q, c) -> holds c = true -> in_window c = false ->
-  any_window (thr g) = false.
-Proof.
-  intros M Hi Hh Hw. destruct (any_window (thr g)) eqn:E; [|reflexivity].
-  apply any_window_spec in E as (j & q' & c' & Hj & Hw').
-  assert (Hh' : holds c' = true) by (destruct c' as [| | | | | | | | | | | | |[]|[]|[]|[]|[] ?| | | | | |]; simpl in *; congruence).
-  pose proof (M _ _ _ Hi Hh) as M1. pose proof (M _ _ _ Hj Hh') as M2.
-  rewrite M1 in M2. inversion M2; subst. rewrite Hi in Hj. inversion Hj; subst. congruence.
-Qed.
+Definition setpw_inv (g : gstate) : Prop :=
+  forall i old nw c, nth_error (thr g) i = Some (QSetPasswd old nw, c) -> setpw_pc c = true.
 
 (** ** what one thread step can do *)
 Ltac step_inv H :=
@@ -77,8 +65,8 @@ Ltac step_inv H :=
   injection H as ? ? ?; subst.
 
 (** effect on the mutex *)
-Lemma step_mutex i w s q c s' c' evs :
-  step_thread i w s q c = Some (s', c', evs) ->
+Lemma step_mutex i s q c s' c' evs :
+  step_thread i s q c = Some (s', c', evs) ->
   (mtx s' = mtx s /\ (holds c' = true -> holds c = true))
   \/ (c = PAcq /\ mtx s = None /\ mtx s' = Some i)
   \/ (mtx s' = None /\ holds c = true /\ holds c' = false).
@@ -88,62 +76,58 @@ Proof.
   all: try (step_inv H; simpl; left; split; [reflexivity|intro; reflexivity]; fail).
 Qed.
 
-(** effect on the flag, the authorisation monitor and the window *)
-Lemma step_class i w s q c s' c' evs :
-  step_thread i w s q c = Some (s', c', evs) ->
+(** effect on the flag and on the authorisation monitor: only the CAS of a
+    verified unlock clears the flag; every other step sets it or leaves it *)
+Lemma step_class i s q c s' c' evs :
+  step_thread i s q c = Some (s', c', evs) ->
   (forall tr, auth_of (evs ++ tr) = true)
   \/ locked s' = true
-  \/ (exists t, c = PS_cas t /\ c' = PS_verify t /\ evs = [] /\ locked s' = false)
-  \/ (exists r, c = PS_restore false r /\ c' = PRel r /\ evs = [] /\ locked s = false)
-  \/ (locked s' = locked s /\ (forall tr, auth_of (evs ++ tr) = auth_of tr)
-      /\ (in_window c = true -> in_window c' = true)
-      /\ (forall t, c <> PS_cas t)).
+  \/ (locked s' = locked s /\ (forall tr, auth_of (evs ++ tr) = auth_of tr)).
 Proof.
   intro H. destruct c; simpl in H; try discriminate H.
-  all: try (step_inv H; simpl; right; right; right; right;
-            repeat split; try reflexivity; try discriminate; try (intro; discriminate); auto; fail).
+  all: try (step_inv H; simpl; right; right; (split; [first [reflexivity|assumption]|intro; reflexivity]); fail).
   - (* PU_cas *) step_inv H; left; intro; reflexivity.
   - (* PL_cas *) step_inv H. right; left. reflexivity.
-  - (* PS_cas *) step_inv H. right; right; left. exists t. simpl. auto.
-  - (* PS_restore *) step_inv H.
-    + right; left. assumption.
-    + destruct t.
-      * right; left. reflexivity.
-      * right; right; right; left. exists r. auto.
 Qed.
 
+(** a ProcWalletSetPasswd thread stays in its own program and never writes the flag *)
+Lemma step_setpw i s old nw c s' c' evs :
+  step_thread i s (QSetPasswd old nw) c = Some (s', c', evs) -> setpw_pc c = true ->
+  setpw_pc c' = true /\ locked s' = locked s.
+Proof.
+  intros H P. destruct c; simpl in P; try discriminate P; simpl in H.
+  all: try discriminate H; step_inv H; simpl; auto.
+Qed.
+
+Lemma step_keeps_req_pc i s q c s' c' evs old nw :
+  step_thread i s q c = Some (s', c', evs) -> q = QSetPasswd old nw -> setpw_pc c = true ->
+  setpw_pc c' = true.
+Proof. intros H -> P. exact (proj1 (step_setpw _ _ _ _ _ _ _ _ H P)). Qed.
+
 (** the observations of a step *)
-Lemma step_obs_ok i w s q c s' c' evs lf tr :
-  step_thread i w s q c = Some (s', c', evs) ->
+Lemma step_obs_ok i s q c s' c' evs lf tr :
+  step_thread i s q c = Some (s', c', evs) ->
   obs_ok lf tr = true ->
-  (c = PX_flag -> locked s = false -> auth_of tr = true) ->
-  (lf = true -> c = PO_read -> locked s = false -> auth_of tr = true) ->
+  (locked s = false -> auth_of tr = true) ->
   obs_ok lf (evs ++ tr) = true.
 Proof.
-  intros H Htr Hx Ho. destruct c; simpl in H; try discriminate H.
+  intros H Htr Ha. destruct c; simpl in H; try discriminate H.
   all: try (step_inv H; simpl; try assumption; fail).
   - (* PX_flag *) inversion H; subst; clear H. simpl.
     match goal with |- context [locked ?x] => destruct (locked x) eqn:L end; simpl.
     + assumption.
-    + rewrite Hx by auto. assumption.
+    + rewrite Ha by reflexivity. assumption.
   - (* PO_read *) destruct q; inversion H; subst; clear H; simpl.
     all: match goal with |- context [locked ?x] => destruct (locked x) eqn:L end; simpl; try assumption.
-    all: destruct lf; simpl; try assumption; rewrite Ho by auto; assumption.
+    all: destruct lf; simpl; try assumption; rewrite Ha by reflexivity; assumption.
 Qed.
 
-(** every flag test made under the mutex carries the window ghost of its moment *)
-Definition held_obs_clean (tr : list event) : bool :=
-  forallb (fun e => match e with EObs _ _ true w _ => negb w | _ => true end) tr.
-
-Lemma step_held_clean i w s q c s' c' evs tr :
-  step_thread i w s q c = Some (s', c', evs) ->
-  held_obs_clean tr = true -> (c = PX_flag -> w = false) ->
-  held_obs_clean (evs ++ tr) = true.
+Lemma obs_ok_weaken tr : obs_ok true tr = true -> obs_ok false tr = true.
 Proof.
-  intros H Htr Hw. unfold held_obs_clean in *. rewrite forallb_app, Htr, andb_true_r.
-  destruct c; simpl in H; try discriminate H.
-  all: try (step_inv H; reflexivity).
-  step_inv H; simpl; rewrite Hw by reflexivity; reflexivity.
+  induction tr as [|e tr IH]; simpl; [reflexivity|].
+  destruct e; try exact IH. destruct unlocked; [|exact IH].
+  intro H. apply andb_true_iff in H as [H1 H2]. rewrite (IH H2), andb_true_r.
+  rewrite orb_true_r in H1. destruct held; simpl; [exact H1|reflexivity].
 Qed.
 
 (** secrets *)
@@ -152,8 +136,8 @@ Definition has_good_obs (i : nat) (tr : list event) : bool := existsb (is_good_o
 Lemma has_good_obs_app i evs tr : has_good_obs i tr = true -> has_good_obs i (evs ++ tr) = true.
 Proof. unfold has_good_obs. intro H. rewrite existsb_app, H. apply orb_true_r. Qed.
 
-Lemma step_secrets_ok i w s q c s' c' evs tr :
-  step_thread i w s q c = Some (s', c', evs) ->
+Lemma step_secrets_ok i s q c s' c' evs tr :
+  step_thread i s q c = Some (s', c', evs) ->
   secrets_ok tr = true ->
   (c = PX_secret -> (exists k, q = QSecret k) -> has_good_obs i tr = true) ->
   secrets_ok (evs ++ tr) = true.
@@ -169,10 +153,10 @@ Proof.
 Qed.
 
 (** where a step can lead to PX_seed / PX_secret, and with what observation *)
-Lemma step_enters_secret i w s q c s' c' evs :
-  step_thread i w s q c = Some (s', c', evs) ->
+Lemma step_enters_secret i s q c s' c' evs :
+  step_thread i s q c = Some (s', c', evs) ->
   (c' = PX_seed \/ c' = PX_secret) ->
-  (c = PX_flag /\ locked s = false /\ evs = [EObs i true true w (now s)])
+  (c = PX_flag /\ locked s = false /\ evs = [EObs i true true (now s)])
   \/ (c = PX_seed) \/ (c = PAcq /\ exists a, q = QApiPriv a).
 Proof.
   intros H Hc. destruct c; simpl in H; try discriminate H.
@@ -188,47 +172,42 @@ Qed.
 Record Inv (g : gstate) : Prop := mkInv {
   inv_mutex : mutex_inv g;
   inv_flag : flag_inv g;
-  inv_held : split_race g = false -> obs_ok false (trace g) = true;
-  inv_all : split_race g = false -> obs_in_win g = false -> obs_ok true (trace g) = true;
-  inv_clean : held_obs_clean (trace g) = true;
+  inv_all : obs_ok true (trace g) = true;
   inv_secrets : secrets_ok (trace g) = true;
   inv_sec_thr : forall i k c, nth_error (thr g) i = Some (QSecret k, c) ->
                 c = PX_seed \/ c = PX_secret -> has_good_obs i (trace g) = true;
+  inv_setpw : setpw_inv g;
 }.
 
 Lemma Inv_init : Inv init_g.
 Proof.
-  constructor; unfold mutex_inv, flag_inv; simpl; try reflexivity; try discriminate.
+  constructor; unfold mutex_inv, flag_inv, setpw_inv; simpl; try reflexivity; try discriminate.
   - intros [|i] q c H; discriminate.
   - intros [|i] k c H; discriminate.
-Qed.
-
-Lemma win_thread_snoc ts x : win_thread ts -> win_thread (ts ++ [x]).
-Proof.
-  intros (i & q & c & Hi & Hw). exists i, q, c. split; [|exact Hw].
-  rewrite nth_error_app1; [exact Hi|]. apply nth_error_Some. congruence.
+  - intros [|i] old nw c H; discriminate.
 Qed.
 
 Lemma Inv_spawn g q : Inv g -> Inv (exec1 g (SSpawn q)).
 Proof.
-  intros [M F Hh Ha Hc Hs Ht]. constructor; simpl.
+  intros [M F Ha Hs Ht Hp]. constructor; simpl.
   - intros i q' c Hi Hho. apply nth_error_snoc in Hi as [Hi|[_ Hi]].
     + exact (M _ _ _ Hi Hho).
     + inversion Hi; subst. destruct q; discriminate.
-  - intros Hsp Hl. destruct (F Hsp Hl) as [A|W]; [left; exact A|right; apply win_thread_snoc; exact W].
-  - exact Hh.
+  - exact F.
   - exact Ha.
-  - exact Hc.
   - exact Hs.
   - intros i k c Hi Hpc. apply nth_error_snoc in Hi as [Hi|[_ Hi]].
     + unfold has_good_obs in *. simpl. exact (Ht _ _ _ Hi Hpc).
     + inversion Hi; subst. destruct Hpc as [E|E]; simpl in E; discriminate.
+  - intros i old nw c Hi. apply nth_error_snoc in Hi as [Hi|[_ Hi]].
+    + exact (Hp _ _ _ _ Hi).
+    + inversion Hi; subst. reflexivity.
 Qed.
 
 Lemma Inv_advance g d : Inv g -> Inv (exec1 g (SAdvance d)).
 Proof.
   intros I. unfold exec1. destruct (d <? 0); [exact I|].
-  destruct I as [M F Hh Ha Hc Hs Ht].
+  destruct I as [M F Ha Hs Ht Hp].
   destruct (timer (sh g)) as [dl|]; [destruct (now (sh g) + d <=? dl)|].
   2: constructor; assumption.
   all: constructor; simpl; assumption.
@@ -238,16 +217,16 @@ Lemma Inv_fire g : Inv g -> Inv (exec1 g SFire).
 Proof.
   intros I. unfold exec1. destruct (timer (sh g)) as [dl|]; [|exact I].
   destruct (dl <=? now (sh g)); [|exact I].
-  destruct I as [M F Hh Ha Hc Hs Ht]. constructor; simpl; try assumption.
+  destruct I as [M F Ha Hs Ht Hp]. constructor; simpl; try assumption.
   all: try (intros i q c Hi Hho; exact (M _ _ _ Hi Hho)).
-  all: try (intros _ Hl; discriminate).
+  all: try (intros Hl; discriminate).
 Qed.
 
 Lemma Inv_restart g : Inv g -> Inv (exec1 g SRestart).
 Proof.
   intros I. unfold exec1. destruct (forallb is_done (thr g)) eqn:D; [|exact I].
-  destruct I as [M F Hh Ha Hc Hs Ht]. constructor; simpl; try assumption.
-  all: try (intros _ Hl; discriminate).
+  destruct I as [M F Ha Hs Ht Hp]. constructor; simpl; try assumption.
+  all: try (intros Hl; discriminate).
   intros i q c Hi Hho. rewrite forallb_forall in D.
   apply nth_error_In in Hi. apply D in Hi. unfold is_done in Hi. simpl in Hi.
   destruct c; simpl in *; discriminate.
@@ -257,16 +236,10 @@ Lemma Inv_step g i : Inv g -> Inv (exec1 g (SStep i)).
 Proof.
   intros I. unfold exec1.
   destruct (nth_error (thr g) i) as [[q c]|] eqn:Hi; [|exact I].
-  destruct (step_thread i (any_window (thr g)) (sh g) q c) as [[[s' c'] evs]|] eqn:Hst; [|exact I].
-  destruct I as [M F Hh Ha Hc Hs Ht].
-  pose proof (step_mutex _ _ _ _ _ _ _ _ Hst) as SM.
-  pose proof (step_class _ _ _ _ _ _ _ _ Hst) as SC.
-  (* facts used several times *)
-  assert (HeldNoWin : holds c = true -> in_window c = false -> any_window (thr g) = false).
-  { intros. eapply holder_no_other_window; eauto. }
-  assert (AuthX : c = PX_flag -> locked (sh g) = false -> split_race g = false -> auth_of (trace g) = true).
-  { intros -> Hl Hsp. destruct (F Hsp Hl) as [A|W]; [exact A|].
-    apply any_window_spec in W. rewrite HeldNoWin in W by reflexivity. discriminate. }
+  destruct (step_thread i (sh g) q c) as [[[s' c'] evs]|] eqn:Hst; [|exact I].
+  destruct I as [M F Ha Hs Ht Hp].
+  pose proof (step_mutex _ _ _ _ _ _ _ Hst) as SM.
+  pose proof (step_class _ _ _ _ _ _ _ Hst) as SC.
   constructor; simpl.
   - (* mutex *)
     intros j q' cj Hj Hho. simpl in Hj |- *. destruct (Nat.eq_dec i j) as [->|Hne].
@@ -282,45 +255,28 @@ Proof.
       * congruence.
       * pose proof (M _ _ _ Hi Hhc) as Mi. rewrite Mi in Mj. inversion Mj. contradiction.
   - (* flag *)
-    intros Hsp Hl. simpl in Hsp, Hl |- *. apply orb_false_elim in Hsp as [Hsp Hgh].
-    assert (Keep : win_thread (thr g) -> (in_window c = true -> in_window c' = true) ->
-                   win_thread (upd i (q, c') (thr g))).
-    { intros (j & qj & cj & Hj & Hw) Himp. destruct (Nat.eq_dec i j) as [->|Hne].
-      - rewrite Hi in Hj. inversion Hj; subst. exists j, qj, c'. split; [|auto].
-        eapply nth_error_upd_same; eauto.
-      - exists j, qj, cj. split; [|exact Hw]. rewrite nth_error_upd_other; auto. }
-    destruct SC as [A|[L|[(t & -> & -> & -> & L)|[(r & -> & -> & -> & L)|(L & A & Wk & _)]]]].
-    + left. apply A.
+    intros Hl. simpl in Hl |- *.
+    destruct SC as [A|[L|(L & A)]].
+    + apply A.
     + congruence.
-    + (* the CAS of SetPasswd: no split race, so t is the flag value before *)
-      simpl in Hgh. apply negb_false_iff, eqb_prop in Hgh. destruct t.
-      * right. exists i, q, (PS_verify true). split; [eapply nth_error_upd_same; eauto|reflexivity].
-      * symmetry in Hgh. destruct (F Hsp Hgh) as [A|W]; [left; exact A|right].
-        apply Keep; [exact W|discriminate].
-    + destruct (F Hsp L) as [A|W]; [left; exact A|right]. apply Keep; [exact W|discriminate].
-    + rewrite L in Hl. destruct (F Hsp Hl) as [A'|W]; [left; rewrite A; exact A'|right].
-      apply Keep; assumption.
-  - (* observations under the mutex *)
-    intros Hsp. simpl in Hsp |- *. apply orb_false_elim in Hsp as [Hsp _].
-    eapply step_obs_ok; eauto. discriminate.
+    + rewrite A. apply F. rewrite <- L. exact Hl.
   - (* all observations *)
-    intros Hsp Hob. simpl in Hsp, Hob |- *.
-    apply orb_false_elim in Hsp as [Hsp _]. apply orb_false_elim in Hob as [Hob Hgo].
     eapply step_obs_ok; eauto.
-    intros _ -> Hl. simpl in Hgo.
-    destruct (F Hsp Hl) as [A|W]; [exact A|]. apply any_window_spec in W. congruence.
-  - (* held observations are outside every window *)
-    eapply step_held_clean; eauto. intros ->. apply HeldNoWin; reflexivity.
   - (* secrets *)
     eapply step_secrets_ok; eauto. intros -> [k ->]. eapply Ht; eauto.
   - (* threads about to hand out a secret have seen the wallet unlocked *)
     intros j k cj Hj Hpc. simpl in Hj |- *. destruct (Nat.eq_dec i j) as [->|Hne].
     + rewrite (nth_error_upd_same _ _ _ _ Hi) in Hj. inversion Hj; subst.
-      destruct (step_enters_secret _ _ _ _ _ _ _ _ Hst Hpc) as [(-> & Hl & ->)|[->|(-> & a & Hq)]].
-      * rewrite HeldNoWin by reflexivity. unfold has_good_obs. simpl. rewrite Nat.eqb_refl. reflexivity.
+      destruct (step_enters_secret _ _ _ _ _ _ _ Hst Hpc) as [(-> & Hl & ->)|[->|(-> & a & Hq)]].
+      * unfold has_good_obs. simpl. rewrite Nat.eqb_refl. reflexivity.
       * apply has_good_obs_app. eapply Ht; eauto.
       * discriminate.
     + rewrite nth_error_upd_other in Hj by exact Hne. apply has_good_obs_app. eapply Ht; eauto.
+  - (* SetPasswd threads stay in their program *)
+    intros j old nw cj Hj. simpl in Hj. destruct (Nat.eq_dec i j) as [->|Hne].
+    + rewrite (nth_error_upd_same _ _ _ _ Hi) in Hj. inversion Hj; subst.
+      eapply step_keeps_req_pc; eauto.
+    + rewrite nth_error_upd_other in Hj by exact Hne. exact (Hp _ _ _ _ Hj).
 Qed.
 
 Lemma Inv_exec1 g it : Inv g -> Inv (exec1 g it).
